@@ -50,6 +50,10 @@ CLAIMED = {
           "Sets of 2-4 concurrent requests (explorer reads and indexer writes) on instances prepared by seeded histories; every SharedData acquire/release is a scheduling point at which a seeded scheduler releases exactly one thread; a state with no admissible thread is a deadlock, reported with the wait-for description and the decision list that replays it. Seeded search over schedules, not enumeration.",
           "Only the application locks are modelled; the admission rule is std's futex RwLock policy (reader blocked while a writer is queued). The 5 s wait collapses to an immediate timeout under the paused clock.",
           "DESIGN.md 4 C11, Appendix B"),
+  "C12": ("fault_enumeration", "fault enumeration over the real HTTP/JSON-RPC stack: every method x request shape x credential fault, state digest before/after each unauthorised request",
+          "The real start() on loopback and one synchronous client enumerate every registered method x {call, notification, batch element first/middle/last} x {no, wrong-user, wrong-password, malformed, correct header} x {auth on, off}; unauthorised requests must not change a public state digest, protected methods answer 401 per element, public ones keep working, authorised ones are never refused; calling every non-protected method with well-formed parameters checks the completeness of the protected list. Exhaustive over that matrix for the prepared state; seeds vary state details.",
+          "Real sockets with a single blocking client (the transcript is a function of the request list). WebSocket transport not exercised.",
+          "DESIGN.md 4 C12"),
   "C13": ("exploration", "deterministic component simulation against a key -> full-history reference model (seeded op sequences incl. commit/discard/reopen/rollback), plus a bounded exhaustive pass",
           "Seeded op sequences on the real BlockCachedDatabase (5 key types), BlockDatabase and BlockHistoryCacheData over RocksDB on tmpfs, checked step by step against a trivial model: all point reads after every step, range scans complete and ordered, full scans, rollback inside the window right, deeper rollbacks refused or right, <= 11 persisted versions. A 7-letter alphabet is enumerated to depth 5/7 as a supplement. Sampling, not proof.",
           "Window measured from the highest block the table has ever been told about (what pruning is relative to). Component preconditions (monotone block numbers) respected by the generator.",
@@ -70,6 +74,10 @@ CLAIMED = {
           "Seeded histories on 6 networks (with / without Prague at low heights) execute a context-recording contract as inscription, signed, parked-then-drained and nested transaction, with arbitrary timestamps, explicit and generated hashes, idle gaps > 256 blocks, commits and reorgs; every recorded field is compared with what the harness supplied for that transaction. Sampling, not proof.",
           "Activation heights themselves are not reached (mining 275000 blocks per run is too slow).",
           "DESIGN.md 4 C19"),
+  "C20": ("fault_enumeration", "fault enumeration with the real start(): all (creating, reopening) configuration pairs, tampered / missing records, foreign directories, crash points of the first-run recording",
+          "All 14 x 14 ordered configuration pairs over 7 networks x traces on/off, each of the 4 recorded keys removed or altered in the config database, populated directory without config, foreign non-empty directory, and every write of the first-run recording as a crash point. Identical configuration must reopen and serve the same digest; anything else must fail to start and leave the data usable under the original configuration. Exhaustive over that finite space.",
+          "Version constants are varied by tampering with the stored record (they cannot vary within one build).",
+          "DESIGN.md 4 C20"),
 }
 
 NOT_APPLICABLE = {
